@@ -25,6 +25,8 @@ class Transc (α : Type) where
   ltb : α → α → Bool
   leb : α → α → Bool
   eqb : α → α → Bool
+  /-- `i64 as f64` -/
+  ofInt : Int → α
 
 structure Dual (α : Type) where
   real : α
